@@ -1,7 +1,7 @@
 //! `sched run FILE` — runs every case of FILE (PROTOCOL_SCHED.md) on the real `sync::Arena` under the
 //! controlled scheduler and prints the output of each case followed by a line `end`.
 //!
-//! `sched gen --seed S --cases N --profile fast|list|refs --out PREFIX` — generates N cases, writes
+//! `sched gen --seed S --cases N --profile fast|list|refs|aba --out PREFIX` — generates N cases, writes
 //! PREFIX.cases (input) and PREFIX.impl (what `sched run PREFIX.cases` prints) and a JSON summary
 //! line on stderr. Every random choice derives from one `SplitMix64` seeded with S.
 
@@ -13,7 +13,7 @@ use rarena_verif_harness::sched::*;
 use rarena_verif_harness::*;
 
 fn usage() -> ! {
-  eprintln!("usage: sched run FILE\n       sched gen --seed S --cases N --profile fast|list|refs --out PREFIX");
+  eprintln!("usage: sched run FILE\n       sched gen --seed S --cases N --profile fast|list|refs|aba --out PREFIX");
   std::process::exit(2)
 }
 
@@ -63,6 +63,7 @@ enum Profile {
   Fast,
   List,
   Refs,
+  Aba,
 }
 
 struct Gen {
@@ -351,6 +352,130 @@ impl Gen {
     c
   }
 
+
+  // ---- aba: pop / pop / push-back of the same block while another thread is inside the removal ------
+  fn case_aba(&mut self) -> SchedCase {
+    let mut cfg = self.base_cfg(&[1, 2], 8);
+    cfg.minseg = self.rng.pick(&[0, 1, 8, 16]);
+    let prefix = cfg.prefix();
+    let a = self.rng.range(120, 640);
+    let nb = self.rng.range(0, 2);
+    let mut c = SchedCase { cfg: String::new(), budget: 800, ..Default::default() };
+    // blocks: [small keeper] A [keeper] [B] filler
+    let mut sizes: Vec<(u32, u64, bool)> = Vec::new(); // (handle, size, released in pre)
+    let mut h = 0u32;
+    if self.rng.chance(50) {
+      sizes.push((h, self.rng.range(8, 40), false));
+      h += 1;
+    }
+    sizes.push((h, a, true));
+    let a_id = h;
+    h += 1;
+    sizes.push((h, self.rng.range(8, 40), false));
+    h += 1;
+    for _ in 0..nb {
+      sizes.push((h, self.rng.range(24, a.max(25) / 2), true));
+      h += 1;
+      sizes.push((h, self.rng.range(8, 24), false));
+      h += 1;
+    }
+    let total: u64 = sizes.iter().map(|x| x.1 + 8).sum::<u64>() + 64;
+    cfg.cap = prefix + total as u32 + self.rng.range(0, 64) as u32;
+    c.cfg = cfg.line();
+    self.probe_no += 1;
+    let (probe, _) = open_case(&c.cfg, None, self.tmp.path(), 2_000_000 + self.probe_no);
+    let mut probe = probe.expect("probe arena");
+    let mut pre: Vec<String> = Vec::new();
+    let run = |pre: &mut Vec<String>, probe: &mut Box<dyn CaseApi>, line: String| -> String {
+      let a = probe.exec(&line);
+      pre.push(line);
+      a
+    };
+    let mut kept: Vec<u32> = Vec::new();
+    for (id, n, _) in &sizes {
+      let b = self.byte();
+      if run(&mut pre, &mut probe, format!("alloc_bytes {id} {n}")).starts_with("r=ok") {
+        run(&mut pre, &mut probe, format!("fill {id} {b}"));
+        kept.push(*id);
+      }
+    }
+    // exhaust the bump area so that every later allocation is served by the free list
+    let rem = probe.arena().remaining as u64;
+    if rem > 0 {
+      let b = self.byte();
+      run(&mut pre, &mut probe, format!("alloc_bytes {h} {rem}"));
+      run(&mut pre, &mut probe, format!("fill {h} {b}"));
+      kept.push(h);
+    }
+    for (id, _, rel) in &sizes {
+      if *rel && kept.contains(id) {
+        run(&mut pre, &mut probe, format!("drop {id}"));
+        kept.retain(|x| x != id);
+      }
+    }
+    let _ = a_id;
+    // thread 2 on the probe: pop (small), pop (about the remainder), push the first one back
+    let head = probe.arena().fl.iter().map(|n| n.1 as u64).max().unwrap_or(a);
+    let y1 = self.rng.range(8, (head / 3).max(9));
+    let mut t2: Vec<String> = Vec::new();
+    let mut p2: Vec<String> = Vec::new();
+    let ok1 = run(&mut p2, &mut probe, format!("alloc_bytes 200 {y1}")).starts_with("r=ok");
+    t2.push(format!("alloc_bytes 200 {y1}"));
+    let b = self.byte();
+    t2.push(format!("fill 200 {b}"));
+    let r = probe.arena().fl.iter().map(|n| n.1 as u64).max().unwrap_or(16);
+    let y2 = match self.rng.below(5) {
+      0 => r,
+      1 => r.saturating_sub(1),
+      2 => r.saturating_sub(8),
+      3 => r.saturating_sub(cfg.minseg as u64 + 8),
+      _ => self.rng.range(r / 2 + 1, r.max(r / 2 + 2)),
+    }
+    .max(1);
+    run(&mut p2, &mut probe, format!("alloc_bytes 201 {y2}"));
+    t2.push(format!("alloc_bytes 201 {y2}"));
+    let b = self.byte();
+    t2.push(format!("fill 201 {b}"));
+    t2.push("verify 201".to_string());
+    if ok1 {
+      t2.push("verify 200".to_string());
+      t2.push(if self.rng.chance(80) { "drop 200".to_string() } else { "dealloc 200".to_string() });
+    }
+    t2.push("verify 201".to_string());
+    drop(probe);
+    c.pre = pre;
+    // thread 1: the victim wants (a part of) the original head
+    let x = match self.rng.below(4) {
+      0 => head,
+      1 => head.saturating_sub(self.rng.range(1, 16)),
+      _ => self.rng.range(head / 2, head.max(head / 2 + 1)),
+    }
+    .max(1);
+    let b1 = self.byte();
+    let mut t1 = vec![format!("alloc_bytes 100 {x}"), format!("fill 100 {b1}"), "verify 100".to_string()];
+    if self.rng.chance(30) && !kept.is_empty() {
+      let o = self.rng.pick(&kept);
+      t1.push(format!("verify {o}"));
+    }
+    t1.push("verify 100".to_string());
+    let swap = self.rng.chance(50);
+    let (p1, p2) = if swap { (t2, t1) } else { (t1, t2) };
+    let est = vec![(1usize, p1.iter().map(|o| est_steps(o, true)).sum()), (2usize, p2.iter().map(|o| est_steps(o, true)).sum())];
+    c.threads.push((1, p1));
+    c.threads.push((2, p2));
+    if self.rng.chance(35) && !kept.is_empty() {
+      // a bystander releasing / verifying a kept block
+      let o = self.rng.pick(&kept);
+      c.threads.push((3, vec![format!("verify {o}"), format!("drop {o}")]));
+    }
+    let mut est = est;
+    if c.threads.len() == 3 {
+      est.push((3, 12));
+    }
+    c.sched = self.schedule(&est);
+    c
+  }
+
   // ---- refs: clones, owned handles, tear-down on any thread --------------------------------------
   fn case_refs(&mut self) -> SchedCase {
     let mut cfg = self.base_cfg(&[0, 1, 2], 30);
@@ -480,6 +605,7 @@ fn gen(args: &[String]) {
           "fast" => Profile::Fast,
           "list" => Profile::List,
           "refs" => Profile::Refs,
+          "aba" => Profile::Aba,
           _ => usage(),
         })
       }
@@ -503,6 +629,7 @@ fn gen(args: &[String]) {
       Profile::Fast => g.case_fast(),
       Profile::List => g.case_list(),
       Profile::Refs => g.case_refs(),
+      Profile::Aba => g.case_aba(),
     };
     input.push_str(&c.text());
     // run exactly what `sched run` will parse
